@@ -5,7 +5,8 @@ from props._cfg_common import TRUSTED, ASSUMPTIONS, TECHNIQUE
 
 PROP = "C09"
 LEVEL = "proof"
-THEOREMS = {"Properties.C09": ["C09_nullable_sub_from_source", "C09_remove_epsilon_from_source", "C09_production_nf_from_source", "C09_remove_useless_lang", "C09_remove_useless_shape", "C09_remove_epsilon_lang",
+THEOREMS = {"Properties.C09Tie": ["C09_nullable_sub_from_source", "C09_remove_epsilon_from_source", "C09_production_nf_from_source"],
+            "Properties.C09": ["C09_remove_useless_lang", "C09_remove_useless_shape", "C09_remove_epsilon_lang",
                              "C09_remove_epsilon_shape", "C09_eliminate_unit_lang", "C09_eliminate_unit_shape", "C09_decompose_lang",
                              "C09_to_normal_form_lang", "C09_to_normal_form_shape", "C09_to_normal_form_total"]}
 LEVEL_TEXT = ("Proof + correspondence: for the mirrored Gallina models of remove_useless_symbols, remove_epsilon, eliminate_unit_productions and "
